@@ -161,11 +161,14 @@ def obj_body(case):
             scal.append(int(g[0]))
     check(scal == exp, 'objid-layout-scalar', lambda: dict(rows=rows, got=scal, want=exp))
     arr = {n: np.array([r[n] for r in rows], dtype=np.int64) for n, lo, hi, sh in OBJ_FIELDS}
+    keep = {n: a.copy() for n, a in arr.items()}
     g = call(sdss_objid, arr['run'], arr['camcol'], arr['field'], arr['objnum'], rerun=arr['rerun'],
              skyversion=arr['skyversion'], firstfield=arr['firstfield'])
     with judge('objid-array'):
+        check(all(np.array_equal(arr[n], keep[n]) for n in arr), 'objid-modifies-its-input-arrays')
         check([int(x) for x in g] == exp, 'objid-scalar-vs-array', lambda: dict(rows=rows, got=[int(x) for x in g], want=exp))
-    for label, ids in (('int64', np.array(exp, dtype=np.int64)), ('str', np.array([str(e) for e in exp]))):
+    for label, ids in (('int64', np.array(exp, dtype=np.int64)), ('str', np.array([str(e) for e in exp])),
+                       ('int64-bigendian', np.array(exp, dtype=np.int64).astype('>i8'))):
         un = call(unwrap_objid, ids)
         with judge('unwrap-objid-' + label):
             for k, uk in (('skyversion', 'skyversion'), ('rerun', 'rerun'), ('run', 'run'), ('camcol', 'camcol'),
@@ -231,12 +234,16 @@ def spec_body(case):
     check(scal_s == exp, 'specobjid-layout-run2d-string', lambda: dict(rows=rows, got=scal_s, want=exp))
     for dt in (np.int64, np.dtype(case.get('dtype', 'i8'))):
         arr = {n: np.array([r[n] for r in rows], dtype=dt) for n, lo, hi, sh in SPEC_FIELDS}
+        keep = {n: a.copy() for n, a in arr.items()}
         g = call(sdss_specobjid, arr['plate'], arr['fiber'], arr['mjd'], arr['run2d'], **kw(arr['line']))
         with judge('specobjid-array'):
+            check(all(np.array_equal(arr[n], keep[n]) for n in arr), 'specobjid-modifies-its-input-arrays',
+                  lambda: dict(dtype=str(np.dtype(dt)), changed=[n for n in arr if not np.array_equal(arr[n], keep[n])]))
             check(np.asarray(g).dtype == np.uint64, 'specobjid-array-dtype', lambda: dict(got=str(np.asarray(g).dtype)))
             check([int(x) for x in g] == exp, 'specobjid-scalar-vs-array',
                   lambda: dict(rows=rows, got=[int(x) for x in g], want=exp, dtype=str(np.dtype(dt))))
-    for label, ids in (('uint64', np.array(exp, dtype=np.uint64)), ('str', np.array([str(e) for e in exp]))):
+    for label, ids in (('uint64', np.array(exp, dtype=np.uint64)), ('str', np.array([str(e) for e in exp])),
+                       ('uint64-bigendian', np.array(exp, dtype=np.uint64).astype('>u8'))):
         for as_int in (True, False):
             un = call(unwrap_specobjid, ids, run2d_integer=as_int, specLineIndex=(low == 'index'))
             with judge('unwrap-spec-' + label):
